@@ -397,6 +397,17 @@ def _rule_R30(text, args):
     #  oracle; args: the local names)
     n = 0
     for name in args:
+        m = re.fullmatch(r"self\.(\d+)", name)
+        if m:
+            # (self.N)(a, self.M)  ->  vstub_call_self_N(self, a)   : a function pointer held in a tuple field of an OPAQUE
+            # struct; a trailing `self.M` argument (the variable's index, another field of the same opaque value) travels
+            # with `self`
+            rx = re.compile(r"\(\s*self\s*\.\s*" + m.group(1) + r"\s*\)\s*\(")
+            text, k = rx.subn("vstub_call_self_%s(self, " % m.group(1), text)
+            if k:
+                text = re.sub(r"(vstub_call_self_" + m.group(1) + r"\(self, [^;]*?),\s*self\s*\.\s*\d+\s*\)", r"\1)", text)
+            n += k
+            continue
         rx = re.compile(r"(?<![A-Za-z0-9_.:])" + re.escape(name) + r"\(")
         text, k = rx.subn("vstub_call_%s(%s, " % (name, name), text)
         n += k
